@@ -8,8 +8,9 @@
                         Michalewicz 5/10, Schubert - some point of the box has such a value);
      opt_bound_stmt b : for every accepted dimension n and EVERY point x of the box, f x is not better than the
                         documented optimum by more than 1e-3 in the declared direction.
-   Dimension bounds that are part of b_dims: Schwefel n <= 3000 (alpha is truncated in the code: the minimum is
-   -2.72e-7 per coordinate, see C15_schwefel_every_dimension), EqualityConstr n <= 10^6 (isclose slack 1e-9). *)
+   Dimension bounds that are part of b_dims: Schwefel n <= 3 000 000 (only because the documented coordinates
+   420.9687 are rounded: the value there is 2.7e-10 per coordinate; the bound clause holds in every dimension, see
+   C15_schwefel_every_dimension), EqualityConstr n <= 10^6 (isclose slack 1e-9). *)
 From Coq Require Import Reals List Lia Lra.
 From Artap Require Import Model.Bench Proofs.BenchLemmas Proofs.BenchProofsA Proofs.BenchProofsB Proofs.BenchProofsC Proofs.BenchProofsD.
 Import ListNotations.
@@ -79,9 +80,9 @@ Proof.
 Qed.
 Print Assumptions C15_well_defined.
 
-(* Schwefel in EVERY dimension (no bound on n): the coded formula stays above -3.3e-7 per coordinate *)
-Theorem C15_schwefel_every_dimension : forall x, in_box (-500) 500 x ->
-  INR (length x) * - (33 / 100000000) <= schwefel x.
+(* Schwefel in EVERY dimension (no bound on n): with the full-precision constant of fix F9 the coded formula is
+   non-negative on the box *)
+Theorem C15_schwefel_every_dimension : forall x, in_box (-500) 500 x -> 0 <= schwefel x.
 Proof. exact schwefel_lower. Qed.
 Print Assumptions C15_schwefel_every_dimension.
 
